@@ -125,6 +125,7 @@ func lockOp(acquire, read bool) specialFn {
 			if fr.mode != nil && fr.mode.Concurrent {
 				fr.lockAcquire(site, l, st, pos)
 			}
+			fr.interfere(l, st)
 			vc.assume(st.guard, mkNot(mkSelect(held, l))) // re-locking a held mutex never returns
 			vc.setComp(st, "held", "(Array Int Bool)", vc.name("held", "(Array Int Bool)", mkStore(held, l, tTrue)))
 		} else {
@@ -520,5 +521,43 @@ func init() {
 	}
 	for _, n := range []string{"math.Trunc", "math.Round", "math.Pow", "strconv.FormatFloat", "strings.IndexByte"} {
 		specialMods[n] = nopm
+	}
+}
+
+// interfere applies the interference clauses of the function under verification (race mode): while this
+// thread waits for the mutex, other threads may run; their effect is a havoc of the named state
+// constrained by the rely condition. The resulting state is what at(Lock, e) refers to.
+func (fr *Frame) interfere(l *Term, st *State) {
+	top := fr
+	for top.parent != nil {
+		top = top.parent
+	}
+	if top.lockCount == nil {
+		top.lockCount = map[string]int{}
+	}
+	top.lockCount[l.String()]++
+	n := top.lockCount[l.String()]
+	if top.callStates == nil {
+		top.callStates = map[string]*State{}
+	}
+	defer func() { top.callStates["Lock"] = st.clone() }()
+	if fr.mode == nil || !fr.mode.Race || top.fc == nil || fr != top {
+		return
+	}
+	vc := fr.vc
+	for _, itf := range top.fc.Interferences {
+		la := fr.safeEval(fr.ctx(st, nil), itf.Lock)
+		if la.t.String() != l.String() || itf.N != n {
+			continue
+		}
+		pre := st.clone()
+		for _, m := range itf.Mods {
+			fr.havocItem(m, fr.ctx(pre, nil), st)
+		}
+		ctx := fr.ctx(st, nil)
+		ctx.old = pre
+		ctx.assuming = true
+		vc.assume(st.guard, ctx.evalBool(itf.Rely.Expr, itf.Rely))
+		vc.assumptions[fmt.Sprintf("interference model of %s: other threads act only before lock acquisition #%d of %s and only as the rely clause '%s' allows", shortType(top.fc.Key), itf.N, itf.Lock, itf.Label)] = true
 	}
 }
